@@ -3,3 +3,15 @@ reg("C16", "exploration",
     "Thousands of random expression trees per run are evaluated by the real wild binary through ASSERT commands and compared with a big-int model that GNU ld has first confirmed on the same script; failures are minimised to the smallest mis-evaluated sub-tree. Evidence about the expressions actually generated, not a proof over all trees.",
     "Trusts GNU ld 2.40 as arbiter and the Python model only where ld agrees with it; division by zero and constructs ld rejects are excluded and counted.",
     "runtime differential monitor: generated ASSERT scripts through the CLI, model + GNU ld oracle")
+reg("C17", "fault_enumeration",
+    "For each link and mode (fork/no-fork, mmap/no-mmap) the phase log of an undisturbed run enumerates every phase boundary; one run per (boundary, fault kind in panic/abort/SIGKILL/SIGSEGV/allocation failure) checks 'exit 0 implies output byte-identical to the undisturbed output'; natural failures must exit non-zero. The finite matrix is enumerated completely per link; faults strictly between boundaries are not explored.",
+    "Trusts the H1 hook to raise the fault where the log says; 'complete output' is defined by the undisturbed run (relies on C06).",
+    "runtime fault injection at hooked phase boundaries + exit-status/output-hash monitor")
+reg("C18", "fault_enumeration",
+    "Failure causes that strike before, during and after output creation (parse error, undefined/duplicate symbol, relocation overflow, ASSERT, version-script error, RLIMIT_FSIZE write error) x prior output states (absent, regular, read-only, executing, hard-linked, symlink) x write modes x threads x fork are enumerated; after each non-zero exit the output path must be absent or the untouched prior file (inode, size, mtime, sha256).",
+    "Crashes/signals are outside the property's quantifier and only reported; the snapshot compares metadata and content hash.",
+    "runtime file-system snapshot monitor over an enumerated failure matrix")
+reg("C20", "fault_enumeration",
+    "With the H1 pause hook the link is stopped at every phase boundary after its inputs were opened; at that instant one input of each kind (object, archive, thin-archive index and member, linker script, INPUT() object) is modified in each way (rewrite, append, rename-replace, touch) and the link resumed; the exit status must be non-zero. Thorough enumerates boundary x kind x modification completely for one link, under three thread/fork settings.",
+    "Instants after the start of wild's final check are reported, not judged; mtime-preserving modifications are not in the property's list.",
+    "runtime pause-point injection (hook) + exit-status monitor")
